@@ -3,17 +3,19 @@
     (`_talloc_const_name`, `_talloc_realloc` in usual/talloc.c).  Core Lean only. -/
 namespace Usual.C09
 
+/-- body of `_USUAL_MUL_SAFE_(type, max)` with the constants of the type spelled out:
+    `lim` = `unsafe`, `mx` = `max`, `md` = 2^bits (the product is computed in the C type).
+    `none` = `return false`, `some v` = `*res_p = v; return true`; three exits in source order. -/
+def safeMulCore (lim mx md a b : Nat) : Option Nat :=
+  if a < lim ∧ b < lim then some ((a * b) % md)     -- goto safe
+  else if a = 0 ∨ b = 0 then some ((a * b) % md)    -- goto safe
+  else if mx / a ≥ b then some ((a * b) % md)       -- goto safe
+  else none                                         -- return false
+
 /-- `_USUAL_MUL_SAFE_(type, max)` instantiated at an unsigned type of `w` bits; `a`, `b` are the
-    (already converted) operands.  `none` = `return false`, `some v` = `*res_p = v; return true`.
-    Mirrors the three exits of the macro in order; the stored product is computed in the C type,
-    i.e. modulo `2^w`. -/
+    (already converted) operands.  `type unsafe = (type)(1) << (sizeof(type) * 8/2)`. -/
 def safeMul (w a b : Nat) : Option Nat :=
-  let unsafeLim := 1 <<< (w / 2)          -- type unsafe = (type)(1) << (sizeof(type) * 8/2)
-  let max := 2 ^ w - 1
-  if a < unsafeLim ∧ b < unsafeLim then some ((a * b) % 2 ^ w)     -- goto safe
-  else if a = 0 ∨ b = 0 then some ((a * b) % 2 ^ w)                -- goto safe
-  else if max / a ≥ b then some ((a * b) % 2 ^ w)                  -- goto safe
-  else none                                                        -- return false
+  safeMulCore (1 <<< (w / 2)) (2 ^ w - 1) (2 ^ w) a b
 
 /-- `is_power_of_2(unsigned int n)`: `(n > 0) && !(n & (n - 1))` -/
 def isPowerOf2 (n : Nat) : Bool := decide (n > 0) && (n &&& (n - 1)) == 0
